@@ -20,8 +20,11 @@ def _case(draw):
     T = draw(st.integers(1, 4))
     return {'pipe': pp, 'data': dp, 'model': mp, 'blocks': blocks, 'h': draw(st.integers(1, 4)), 'f': mp * draw(st.integers(1, 2)),
             'bias': [[draw(st.booleans()), draw(st.booleans())] for _ in range(blocks)], 'seed': draw(st.integers(0, 9999)),
-            'N': draw(st.integers(1, 3)), 'cap': draw(st.sampled_from([0, 25.0])), 'in_hook': draw(st.booleans()), 'prediv': False,
-            'hp': {'factor_update_steps': 1, 'inv_update_steps': draw(st.sampled_from([1, 1, 2])), 'damping': 0.05, 'factor_decay': 0.9,
+            'N': draw(st.integers(1, 3)), 'cap': draw(st.sampled_from([0, 25.0])), 'in_hook': draw(st.booleans()),
+            'prediv': draw(st.sampled_from([False, False, True])),
+            'hp': {'factor_update_steps': 1, 'inv_update_steps': draw(st.sampled_from([1, 1, 2, 3])),
+                   # constant, or a schedule (lookup table by step): a resumed run must use the value of the restored step
+                   'damping': draw(st.sampled_from([0.05, 0.05, {'table': [0.05, 0.2, 0.01, 0.5]}, {'table': [0.3, 0.02]}])), 'factor_decay': 0.9,
                    'kl_clip': 1e30, 'lr': 0.1},
             'T': T, 'c': draw(st.integers(1, T)), 'dir_mode': draw(st.booleans()), 'compute_inverses': draw(st.booleans()),
             'data_seed': draw(st.integers(0, 999)), 'schedule': draw(st.lists(st.integers(0, 63), max_size=200)), 'flip': draw(st.booleans()), 'rollback_live': draw(st.booleans()),
@@ -110,6 +113,8 @@ class C18(Prop):
                 if rs['steps'] != c:
                     return violation(f'{where}: rank {rank}: steps after load = {rs["steps"]}, saved at {c}', 'restored-steps', labels=labels)
                 for k, v in case['hp'].items():
+                    if isinstance(v, dict):
+                        continue                      # a schedule (callable) is not part of the saved state
                     if rs.get(k) != v:
                         return violation(f'{where}: rank {rank}: {k} after load = {rs.get(k)!r}, configured/saved {v!r}', 'restored-hyperparameter', labels=labels)
             # restored placement
@@ -140,6 +145,26 @@ class C18(Prop):
                                 d = ((g - got[t]['after'][n]).norm() / max(g.norm().item(), 1e-300)).item()
                                 key = 'resume-diverges-model-parallel' if mp >= 2 else 'resume-diverges'
                                 return violation(f'{where}: rank {rank} step {t}: gradient {n} after resuming differs from the uninterrupted run by {d:.3e} relative', key, labels=labels)
+            # a boundary that is not a refresh step: the resumed run uses second-order data recomputed from the restored factors, which is
+            # exactly what reloading the state in place at that boundary (same objects, nothing else changed) gives
+            if not refresh_c and c < T:
+                imm = gptrun.run_gpt(run_case, [train(t) for t in range(c)] + [{'op': 'snapshot'}, {'op': 'rollback', 'compute_inverses': True}]
+                                     + [train(t) for t in range(c, T)], case['schedule'], case['flip'])
+                if imm.timed_out:
+                    raise RuntimeError('simulation timed out (harness)')
+                if not imm.ok:
+                    v = imm.violations[0]
+                    return violation(f'{where}: reloading in place at the boundary: {v}', 'protocol:' + v.kind, labels=labels)
+                for rank in range(W):
+                    a_ = [r for r in imm.results[rank] if r['op'] == 'train'][c:]
+                    b_ = [r for r in res.results[rank] if r['op'] == 'train'][c:]
+                    for j, (a, b) in enumerate(zip(a_, b_)):
+                        for n, g in b['after'].items():
+                            if not torch.equal(g, a['after'][n]):
+                                d = ((g - a['after'][n]).norm() / max(g.norm().item(), 1e-300)).item()
+                                return violation(f'{where}: rank {rank} step {c + j}: gradient {n} after resuming in fresh preconditioners differs by {d:.3e} relative from '
+                                                 f'reloading the same state in place at that boundary (prediv={case.get("prediv")}, damping={case["hp"]["damping"]})',
+                                                 'resume-diverges', labels=labels)
             # rolling back IN PLACE (same preconditioner objects, weights put back) must behave like resuming in fresh ones
             if c < T:
                 rb = gptrun.run_gpt(run_case, [train(t) for t in range(c)] + [{'op': 'snapshot'}] + [train(t) for t in range(c, T)]
